@@ -37,16 +37,17 @@ package velocity
 //@   at-call Username as uname: assert arg0 == player
 //@   at-call WriteString#2 as w4: assert called(w3) && ref(arg0) == res(fwd) && streq(arg1, res(uname)) && !called(w5)
 //@   at-call GameProfile as gp: assert arg0 == player
-//@   at-call WriteProperties as w5: assert called(w4) && ref(arg0) == res(fwd) && arg1 == res(gp).Properties && !called(w6)
+//@   at-call WriteProperties as w5: assert called(w4) && ref(arg0) == res(fwd) && arg1 == res(gp).Properties && !called(w6) && !called(mw)
 //@   at-call IdentifiedKey as key: assert arg0 == player
-//@   at-call WritePlayerKey as w6: assert called(w5) && ref(arg0) == res(fwd) && res(ver) >= 2 && res(ver) < 4 && arg1 == res(key) && !isnil(res(key)) && !called(wb)
+//@   at-call WritePlayerKey as w6: assert called(w5) && ref(arg0) == res(fwd) && res(ver) >= 2 && res(ver) < 4 && arg1 == res(key) && !isnil(res(key)) && !called(wb) && !called(mw)
 //@   at-call SignatureHolder#1 as holder: assert arg0 == res(key)
-//@   at-call WriteBool as wb: assert called(w6) && ref(arg0) == res(fwd) && res(ver) >= 3 && (arg1 <==> res(holder) != uuid.Nil)
+//@   at-call WriteBool as wb: assert called(w6) && ref(arg0) == res(fwd) && res(ver) >= 3 && (arg1 <==> res(holder) != uuid.Nil) && !called(mw)
 //@   at-call SignatureHolder#2 as holder2: assert arg0 == res(key)
-//@   at-call WriteUUID#2 as w8: assert called(wb) && ref(arg0) == res(fwd) && arg(wb, 1) && arg1 == res(holder2)
+//@   at-call WriteUUID#2 as w8: assert called(wb) && ref(arg0) == res(fwd) && arg(wb, 1) && arg1 == res(holder2) && !called(mw)
 //@   at-call hmac.New as mac: assert arg1 == hmacSecret
 //@   at-call Bytes#1 as fb1: assert arg0 == res(fwd) && called(w5)
 //@   at-call (Hash).Write as mw: assert arg0 == res(mac) && arg1 == res(fb1)
+//@   at-call (Hash).Write as mw2: assert [mac-covers-the-key-section] (res(ver) >= 2 && res(ver) < 4 ==> called(w6)) && (res(ver) >= 3 && res(ver) < 4 ==> called(wb))
 //@   at-call NewBuffer#2 as data
 //@   at-call (Hash).Sum as msum: assert arg0 == res(mac) && isnil(arg1) && called(mw)
 //@   at-call (*Buffer).Write#1 as dw1: assert arg0 == res(data) && arg1 == res(msum)
